@@ -281,4 +281,10 @@ Definition apply_sig_op (s : scte) (o : sig_op) : scte :=
 
 Definition run_script (s : scte) (ops : list sig_op) : scte := fold_left apply_sig_op ops s.
 
+(* CreateComponent(): &component{} *)
+Definition create_component : component := mkcomp 0 false 0.
+(* CreateUPID(): &upidSt{} ; CreateComponentOffset(): &componentOffset{} *)
+Definition create_upid : upid := mkupid 0 0 [].
+Definition create_component_offset : comp_offset := mkco 0 0.
+
 End ScteEnc.
